@@ -272,6 +272,10 @@ func init() {
 			m.ghost["frozenclock"] = tTrue
 			return nil
 		},
+		"vSteadyClock": func(m *Machine, fr *frame, fn *ssa.Function, args []Value) Value {
+			m.ghost["steadyclock"] = tTrue
+			return nil
+		},
 		"vPoisoned": func(m *Machine, fr *frame, fn *ssa.Function, args []Value) Value {
 			_, ok := m.ghost["poison"]
 			return mkBool(ok)
@@ -425,6 +429,13 @@ func registerTime() {
 		was := ch.timer.active && !ch.timer.fired
 		if m.clock == nil {
 			m.now()
+		}
+		// Timer channels before Go 1.23 (this module: go 1.21): a timer that was left armed and whose
+		// deadline has passed has put its tick into the channel; Reset does not take it out again, so
+		// the next receive returns that stale tick at once.
+		if was && len(ch.buf) == 0 && ch.timer.period == nil && m.branch(tCmp("<=", ch.timer.deadline, m.clock)) {
+			ch.buf = append(ch.buf, TimeV{ns: ch.timer.deadline})
+			was = false
 		}
 		ch.timer.deadline = tAdd(m.clock, args[1].(*Term))
 		ch.timer.active = true
